@@ -23,6 +23,13 @@ CHECKS = {
         'answer-by-answer from the recorded trace must all agree with the original.',
    note=CTE_NOTE + ' The per-execution node-hash counter travels with the pickle (identity-hash order is neutralised).',
    technique='stateless choice-tree exploration with trace replay of the mutations on the reloaded program'),
+ 'C16': dict(engine='HBFS', category='model_checking', design_ref='5 C16',
+   text='Explicit-state BFS over all add/remove histories of the real Context (96-event alphabet to depth 3, 32-event '
+        'alphabet deeper; thorough: depth 4 / 5 / 7), lock-step with a scoped-map reference model written from the '
+        'property statement; ~480 queries compared after every transition; states merged on the canonical form.',
+   note='Trusted: the 150-line reference model. Restrictions: kind-consistent removals, 2 names, 4 namespaces; global '
+        'queries judged as candidate sets.',
+   technique='explicit-state BFS over operation histories on the real object against a reference model (state merging by canonical form)'),
  'C17': dict(engine='CTE', category='model_checking', design_ref='5 C17',
    text='All 16 switch vectors x 4 languages; every object reachable from the generated program is inspected by a '
         'reflective walker for the features each switch forbids. Exhaustive within the deviation bound.',
@@ -47,6 +54,8 @@ ENGINES = [
   'kind_free_text': 'stateless deviation-bounded explorer of the choice tree of the real pipeline (ChoiceSource replaces src.utils.random.r)'},
  {'name': 'exhaustive-graphs', 'path': 'mc/props/c19.py', 'serves_properties': ['C19'],
   'kind_free_text': 'enumeration of all digraphs up to 4 (5) vertices'},
+ {'name': 'HBFS', 'path': 'mc/props/c16.py', 'serves_properties': ['C16', 'C11'],
+  'kind_free_text': 'explicit-state breadth-first search over operation histories, real object vs reference model'},
 ]
 
 PENDING = 'check not built yet (work in progress); will be claimed when its engine lands'
